@@ -45,6 +45,12 @@ def _const_uses(F, p):
     return out
 
 
+def _diverges(F, p, bb):
+    """block leads only to panics / unreachable (no return reachable)"""
+    r = reach(F.cfg(p), bb)
+    return not any(F.blocks(p)[x]['t'][0] == 'return' for x in r)
+
+
 def run(F, tier, res):
     res.assumptions += ['ansi_term::Style::paint / ANSIStrings emit a reset after every styled run', 'the input\'s own escape sequences are balanced (stated in the property)']
     res.not_decided += ['that a truncation position computed at run time is the right one', 'provenance of every byte reaching the output (only the escape constants are tracked)',
@@ -227,6 +233,38 @@ def run(F, tier, res):
             r = reach(F.cfg(p), esc, avoid=heads)
             if any(gi in r for gi in gcalls):
                 good = False
+            # EXHAUST: the item loop is left only when the iterator is exhausted - an early exit (e.g. once the width is used up) skips the
+            # escape items after the cut, among them the closer of a hyperlink or the reset of a colour opened before it
+            item_heads = [h for h in heads if esc in reach(F.cfg(p), F.cfg(p).get(h, []))]
+            for h in item_heads[:1]:
+                nc += 1
+                S_ = F.cfg(p)
+                body = {b for b in reach(S_, S_.get(h, [])) if h in reach(S_, S_.get(b, []))} | {h}
+                exits = []
+                for b in body:
+                    blkb = F.blocks(p)[b]
+                    if blkb['cleanup']:
+                        continue
+                    for succ in S_.get(b, []):
+                        if succ not in body and not F.blocks(p)[succ]['cleanup']:
+                            exits.append((b, succ))
+                # the legitimate exit: the switch on the iterator's next() result (reached from h without another call in between)
+                legit = set()
+                b = F.blocks(p)[h]['t'][1].get('target')
+                for _ in range(4):
+                    if b is None:
+                        break
+                    if F.blocks(p)[b]['t'][0] == 'switch':
+                        legit.add(b)
+                        break
+                    ss = S_.get(b, [])
+                    b = ss[0] if len(ss) == 1 else None
+                bad = [(b_, s_) for (b_, s_) in exits if b_ not in legit and F.blocks(p)[s_]['t'][0] not in ('unreachable',) and not _diverges(F, p, s_)]
+                if not bad:
+                    okc += 1
+                else:
+                    res.violate('CUTTERS', 'fn=%s;early-exit' % p, 'the truncation routine leaves its item loop before the input is exhausted: escape sequences after the cut are not copied, '
+                                'so a hyperlink or colour opened in the kept text is not closed on this line', where=F.bodies[p]['mir']['span']['at'])
             # COPY-ALL: every escape item is copied to the result on every path back to the loop head (a sequence dropped after the
             # cut can be the closer of a hyperlink or the reset of a colour that was opened in the kept part)
             nc += 1
@@ -241,7 +279,7 @@ def run(F, tier, res):
             okc += 1
         else:
             res.violate('CUTTERS', 'fn=%s;escape-edge' % p, 'the truncation routine cuts at grapheme level on the escape-sequence edge (or the escape/text distinction is gone): escape sequences can be split', where=F.bodies[p]['mir']['span']['at'])
-    res.rule('C09.CUTTERS', nc, 4, 'truncate / pop sites in the renderer, the paint loop newline, the truncation routine', discharged=okc)
+    res.rule('C09.CUTTERS', nc, 5, 'truncate / pop sites in the renderer, the paint loop newline, the truncation routine', discharged=okc)
     from ._ansi import accounting_rule
     accounting_rule(F, res, 'C09')
     res.distinct.update(r['rule'] for r in res.rules)
